@@ -1,6 +1,8 @@
 # typing.Self and "|" union syntax don't exist in Python 3.9
 from __future__ import annotations
 
+import re
+
 import numpy as np
 import pandas as pd
 import pyarrow as pa
@@ -18,6 +20,9 @@ from nested_pandas.nestedframe.expr import (
 )
 from nested_pandas.series.dtype import NestedDtype
 from nested_pandas.series.packer import pack, pack_lists, pack_sorted_df_into_struct
+
+# a "=" that is not part of ==, !=, <=, >=
+_ASSIGNMENT_SIGN = re.compile(r"(?<![=!<>])=(?!=)")
 
 pd.set_option("display.max_rows", 30)
 pd.set_option("display.min_rows", 5)
@@ -524,8 +529,18 @@ class NestedFrame(pd.DataFrame):
         _, aliases = _identify_aliases(expr)
         self._aliases: dict[str, str] | None = aliases
 
-        kwargs["resolvers"] = tuple(kwargs.get("resolvers", ())) + (_NestResolver(self),)
-        kwargs["inplace"] = inplace
+        # Without inplace, assignments are made on a copy. The nest resolver must be bound to the
+        # frame that receives them, otherwise the later lines of a multi-line expression do not
+        # see the fields assigned by the earlier ones (pandas updates its own resolvers only with
+        # the assigned values, not with the frame). So make the copy here and let pandas assign
+        # into it in place. An expression without an assignment sign needs no copy.
+        work_on_copy = not inplace and "target" not in kwargs and _ASSIGNMENT_SIGN.search(expr) is not None
+        target = self.copy() if work_on_copy else self
+        if work_on_copy:
+            kwargs["target"] = target
+
+        kwargs["resolvers"] = tuple(kwargs.get("resolvers", ())) + (_NestResolver(target),)
+        kwargs["inplace"] = True if work_on_copy else inplace
         kwargs["parser"] = "nested-pandas"
         try:
             answer = super().eval(expr, **kwargs)
@@ -533,6 +548,10 @@ class NestedFrame(pd.DataFrame):
             # also when the evaluation raises: a stale alias table changes how later calls
             # on this frame parse back-ticked paths
             self._aliases = None
+            target._aliases = None
+        if work_on_copy and answer is None:
+            # something was assigned: the result is the modified copy
+            return target
         return answer
 
     def extract_nest_names(
@@ -1133,7 +1152,8 @@ class NestedFrame(pd.DataFrame):
                 nested_col = pack_lists(rename_df, name=layer)
                 # the packed column has the index of results_nf itself, row for row: attach it by
                 # position (an index join would multiply the rows that share a label)
-                results_nf = results_nf[[col for col in results_nf.columns if not col.startswith(f"{layer}.")]]
+                other_cols = [col for col in results_nf.columns if not col.startswith(f"{layer}.")]
+                results_nf = results_nf[other_cols]
                 results_nf[layer] = nested_col
 
         return results_nf
